@@ -408,7 +408,49 @@ func e2GetSite(c *Ctx, s *obSink, fn *ssa.Function, get *ssa.Call) {
 		}
 	}
 	if deferred {
-		s.ok(key+":use-after-put", pos, "Put is deferred to function exit")
+		// with a deferred Put nothing loaded from the object may leave the function: it would be used after the Put
+		derived := map[ssa.Value]bool{}
+		for v := range al {
+			for _, r := range referrers(v) {
+				switch x := r.(type) {
+				case *ssa.FieldAddr:
+					for _, rr := range referrers(x) {
+						if u, ok := rr.(*ssa.UnOp); ok {
+							derived[u] = true
+						}
+					}
+				case *ssa.UnOp:
+					derived[x] = true
+				}
+			}
+		}
+		for changed := true; changed; {
+			changed = false
+			for v := range derived {
+				for _, r := range referrers(v) {
+					if p, ok := r.(*ssa.Phi); ok && !derived[p] {
+						derived[p] = true
+						changed = true
+					}
+				}
+			}
+		}
+		leak := ssa.Instruction(nil)
+		for _, b := range fn.Blocks {
+			if ret, ok := b.Instrs[len(b.Instrs)-1].(*ssa.Return); ok {
+				for _, rv := range ret.Results {
+					v := unspill(rv, b)
+					if derived[v] && isUnsafePointer(v.Type()) || al[v] {
+						leak = ret
+					}
+				}
+			}
+		}
+		if leak != nil {
+			s.bad(key+":use-after-put", c.InstrPos(leak), "a pointer into the pooled object is returned from the function whose deferred Put gives the object back: the caller uses it after another goroutine may have taken it")
+		} else {
+			s.ok(key+":use-after-put", pos, "Put is deferred to function exit and nothing loaded from the object is returned")
+		}
 	}
 	// (d) reset obligation
 	switch spec.reset {
@@ -953,6 +995,10 @@ func slotCleared(c *Ctx, s *obSink, fn *ssa.Function, call *ssa.Call, slot strin
 			}
 			// must be in the loop iteration before the call: z's block dominates... the merge after it dominates the call
 			if !(b.Dominates(call.Block()) || (len(b.Succs) == 1 && b.Succs[0].Dominates(call.Block()))) {
+				continue
+			}
+			// ... and inside the entry loop itself (once per entry, not once per call)
+			if hdr := loopHeaderOf(call.Block()); hdr != nil && !(hdr.Dominates(b) && blockReaches(b, hdr)) {
 				continue
 			}
 			// conditions under which z runs but which do not hold at the call (i.e. guards specific to the clear)
